@@ -262,6 +262,10 @@ func c10Files(tier string) []IFile {
 		IFile{Name: "zero:block0+att0-5", Meta: "ok", Entries: []IEntry{{Key: 0, Blocks: []string{"0"}, Atts: [][2]string{{"0", "5"}}}}},
 		IFile{Name: "zero:block0+att0-0+B", Meta: "ok", Entries: []IEntry{bEntry, {Key: 0, Blocks: []string{"0"}, Atts: [][2]string{{"0", "0"}}}}},
 		IFile{Name: "zero:block7+att0-0", Meta: "ok", Entries: []IEntry{{Key: 0, Blocks: []string{"7"}, Atts: [][2]string{{"0", "0"}}}}},
+		// Decimal numbers written with leading zeros (they are still decimal: 0100 is one hundred).
+		IFile{Name: "pad:block0100", Meta: "ok", Entries: []IEntry{{Key: 0, Blocks: []string{"0100"}}}},
+		IFile{Name: "pad:att010-0100", Meta: "ok", Entries: []IEntry{{Key: 0, Atts: [][2]string{{"010", "0100"}}}}},
+		IFile{Name: "pad:block012+att07-011+B", Meta: "ok", Entries: []IEntry{bEntry, {Key: 0, Blocks: []string{"012"}, Atts: [][2]string{{"07", "011"}}}}},
 	)
 	// Wrong metadata.
 	full := []IEntry{{Key: 0, Blocks: []string{"12"}, Atts: [][2]string{{"6", "12"}}}, bEntry}
